@@ -2,8 +2,10 @@
 C08 — every step preserves the invariant; reachable states satisfy it.
 -/
 import LndModel.C08.StepA
+import LndModel.C08.StepB
 import LndModel.C08.StepUp1
 import LndModel.C08.StepUp2
+import LndModel.C08.StepUp3
 import LndModel.C08.StepDown1
 import LndModel.C08.StepDown2
 import LndModel.C08.StepRestart
@@ -22,23 +24,29 @@ theorem Inv.step {s s' : Pair P} {e : Ev P} (hI : Inv H hash s) (h : step H hash
   | downFail  => exact inv_downFail H hash hI h
   | upSigPeer  => exact inv_upSigPeer H hash hI h
   | upRevPeer  => exact inv_upRevPeer H hash hI h
-  | upSigBob  => exact inv_upSigBob H hash hI h
   | upRevBob  => exact inv_upRevBob H hash hI h
-  | downSigBob  => exact inv_downSigBob H hash hI h
-  | downRevBob  => exact inv_downRevBob H hash hI h
+  | upSigBob  => exact inv_upSigBob H hash hI h
   | downSigPeer  => exact inv_downSigPeer H hash hI h
+  | downSigBob  => exact inv_downSigBob H hash hI h
   | downRevPeer  => exact inv_downRevPeer H hash hI h
-  | setFwdFilter  => exact inv_setFwdFilter H hash hI h
-  | commitCircuit  => exact inv_commitCircuit H hash hI h
-  | reforward  => exact inv_reforward H hash hI h
+  | downRevBob  => exact inv_downRevBob H hash hI h
+  | decide b => exact inv_decide H hash b hI h
+  | localReject ref => exact inv_localReject H hash ref hI h
+  | commitCircuit ref => exact inv_commitCircuit H hash ref hI h
+  | refwdFail ref => exact inv_refwdFail H hash ref hI h
   | switchFail  => exact inv_switchFail H hash hI h
+  | sendDownAdd  => exact inv_sendDownAdd H hash hI h
+  | openKeystone  => exact inv_openKeystone H hash hI h
+  | downSignPersist  => exact inv_downSignPersist H hash hI h
   | refwdResp  => exact inv_refwdResp H hash hI h
   | ackDup  => exact inv_ackDup H hash hI h
-  | localReject  => exact inv_localReject H hash hI h
-  | sendDownAdd  => exact inv_sendDownAdd H hash hI h
   | relayUp r => exact inv_relayUp H hash r hI h
+  | dropSpurious  => exact inv_dropSpurious H hash hI h
+  | upSignPersist  => exact inv_upSignPersist H hash hI h
+  | deleteCircuit  => exact inv_deleteCircuit H hash hI h
   | resendUp  => exact inv_resendUp H hash hI h
   | resendDown  => exact inv_resendDown H hash hI h
+  | resendDownAdd  => exact inv_resendDownAdd H hash hI h
   | restart  => exact inv_restart H hash hI h
 
 /-- states reachable from the initial state by any interleaving of model steps. -/
